@@ -319,7 +319,14 @@ def check(run, repo):
             for opt in numeric_options(fn):
                 if opt in params(tfn)[0] and opt not in ('T', 'P'):
                     n_numopts += 1
-                    variants = variants + [dict(v, **{opt: D.sym('opt.' + opt)}) for v in variants]
+                    base_variants = variants
+                    variants = variants + [dict(v, **{opt: D.sym('opt.' + opt)}) for v in base_variants]
+                    # ... and as None where the twin gives None a meaning of its own (``if <option> is None``)
+                    if any(isinstance(c_, ast.Compare) and isinstance(c_.left, ast.Name) and c_.left.id == opt
+                           and len(c_.ops) == 1 and isinstance(c_.ops[0], ast.Is)
+                           and isinstance(c_.comparators[0], ast.Constant) and c_.comparators[0].value is None
+                           for c_ in ast.walk(tfn)):
+                        variants = variants + [dict(v, **{opt: None}) for v in base_variants]
             for var in variants:
                 avail = dict({'T': D.sym('T'), 'P': D.sym('P'), 'include_ZPE': True}, **var)
                 lab = cname + ('[%s]' % ','.join('%s=%s' % kv for kv in sorted(var.items())) if var else '')
